@@ -585,7 +585,9 @@ def c29(run):
                        "changes arriving in between): first read inside = Interp(ancestors(H)) (Trace_Interp), every call "
                        "has its sequential effect on that isolated view (Trace_Seq), the change's deps = H and its actor "
                        "continues only a history contained in H (Trace_Graph), the document afterwards = Interp(all "
-                       "applied); non-trivial = scenario with an isolated commit")
+                       "applied); the spans family puts the reconciliation calls (update_text / update_object / update_spans "
+                       "with blocks / batch_create / splice of nested values) inside isolated transactions; "
+                       "non-trivial = scenario with an isolated commit")
     t = os.path.join(run.work, "iso.ndjson")
     drive(["iso", run.seed, sizes(run, 150, 3000), t])
     run.validate("Trace_Graph.tla", ["C29"], t, "iso-graph")
@@ -615,6 +617,12 @@ def c29(run):
     run.validate("Trace_Interp.tla", ["C29"], t3, "isoconf-interp")
     run.validate("Trace_Seq.tla", ["C29"], t3, "isoconf-seq")
     count_nontrivial(run, t3, has_iso)
+    # reconciliation / bulk calls (update_text, update_object, update_spans with block markers, batch_create, ...)
+    # inside isolated transactions: each must act on the isolated view
+    t4 = os.path.join(run.work, "spans.ndjson")
+    drive(["spans", run.seed, sizes(run, 250, 5000), t4])
+    run.validate("Trace_Seq.tla", ["C29"], t4, "spans-seq")
+    count_nontrivial(run, t4, has_iso)
 
 
 def has_err(sc):
@@ -1081,7 +1089,10 @@ def c18(run):
     run.cov["rule"] = ("(1) every change of generated histories (maps, lists, text with marks, multi-unit text, a 400-character "
                        "change with a message that is DEFLATE-compressed): Change::from_bytes of the raw and of the compressed "
                        "bytes gives the same hash and raw bytes, decode() -> Change::from gives the same hash and bytes, hash = "
-                       "SHA-256 of the chunk (Trace_Wire ChgRT); (2) bundles: TLC (Gen_Delivery over the real DAG) enumerates "
+                       "SHA-256 of the chunk (Trace_Wire ChgRT); a long history (12-50 rounds) of 2-3 actors who keep merging each "
+                       "other is bundled as a whole, as a random subset, as a prefix and as a suffix: the bundle and the bundle "
+                       "parsed back from its bytes must return byte-identical changes, and loading the bytes must leave the "
+                       "same heads, queue and saved document as applying the changes (Trace_Wire BundleRT); (2) bundles: TLC (Gen_Delivery over the real DAG) enumerates "
                        "delivery schedules whose batches are also delivered as one bundle chunk built by Automerge::bundle "
                        "(any subset, duplicates, causally open sets): to_changes() must return byte-identical changes and "
                        "load_incremental of the bundle must leave applied/queue/heads/missing exactly as Graph!DeliverResult "
@@ -1152,12 +1163,19 @@ def c27(run):
                        "conflicts, tombstones and nested objects; Trace_Seq: after the call the image of the object "
                        "(winners only, ids and conflict markers forgotten) equals the target value, everything outside the "
                        "object's subtree is unchanged, wrong kinds / indexes are errors; Trace_Interp on the same traces ties "
-                       "the result to the decoded ops and Trace_Same to reload; update_spans and init_from_hydrate are not "
-                       "exercised; non-trivial = scenario with a bulk call")
+                       "the result to the decoded ops and Trace_Same to reload; the spans family adds update_spans(obj, spans) with "
+                       "text runs (optionally marked) and block markers holding small maps, also inside isolated transactions: "
+                       "the spans read back equal the given spans once adjacent text spans with equal marks are merged, text() "
+                       "is the concatenation with one object-replacement character per block, nothing outside the text's subtree "
+                       "changes; init_from_hydrate is not exercised; non-trivial = scenario with a bulk call")
     t = os.path.join(run.work, "bulk.ndjson")
     drive(["bulk", run.seed, sizes(run, 200, 5000), t])
     run.validate("Trace_Seq.tla", ["C27"], t, "bulk-seq")
     run.validate("Trace_Interp.tla", ["C02"], t, "bulk-interp")
+    t2 = os.path.join(run.work, "spans.ndjson")
+    drive(["spans", run.seed, sizes(run, 400, 8000), t2])
+    run.validate("Trace_Seq.tla", ["C27"], t2, "spans-seq")
+    count_nontrivial(run, t2, has_bulk)
     count_nontrivial(run, t, has_bulk)
     sample_scenario(run, t, has_bulk, maxlen=5)
 
@@ -1235,8 +1253,14 @@ def c36(run):
                        "into programs for a C driver (capi/driver.c) that performs them through the C ABI of automerge-c "
                        "(AMcreate, AMmapPut*/Delete/Increment, AMlistPut*/Delete/Increment, AMcommit, AMmerge), reads results, "
                        "items, byte spans and iterators (AMgetHeads, AMsave, AMkeys, AMmapGetAll, AMlistRange, AMlistGetAll, "
-                       "AMobjSize) after every step and frees results under three disciplines (at once, all at exit in reverse, "
-                       "every second one late); built with clang -fsanitize=address,undefined (+LeakSanitizer); every "
+                       "AMobjSize, the same reads at the heads of the base change) after every step and frees results under three "
+                       "disciplines (at once, all at exit in reverse, every second one late); each behaviour ends with an epilogue on "
+                       "the state it reached: every scalar kind, AMitemResult reference counting, text splices / marks / cursors "
+                       "(also at earlier heads), change accessors, AMapplyChanges / AMload / AMloadIncremental, AMfork (at heads) / "
+                       "AMsetActorId / AMclone / AMemptyChange, SIZE_MAX and out-of-range positions, item iterators (reversed, "
+                       "rewound, advanced), AMrollback, AMmapRange, malformed input to every parser and wrong-object-type calls, "
+                       "and the whole sync protocol (AMgenerateSyncMessage / AMsyncMessageEncode / Decode / AMreceiveSyncMessage, "
+                       "sync state encode / decode) between two replicas, message bytes compared; built with clang -fsanitize=address,undefined (+LeakSanitizer); every "
                        "observation line (heads, the complete save() bytes, all values) must equal the line the Rust API "
                        "produces for the same operations, and the sanitizers must stay silent; non-trivial = programs replayed")
     from . import sh, BIN, build_harness
@@ -1279,7 +1303,7 @@ def c36(run):
         with open(bp, "w") as f:
             f.write("\n".join(behs) + "\n")
         prog, exp, got, err = [os.path.join(run.work, f"capi-{vi}.{x}") for x in ("prog", "exp", "got", "err")]
-        rc, out, dt = sh([os.path.join(BIN, "replay"), "capi", bp, prog, exp], timeout=3000, ok_codes=None)
+        rc, out, dt = sh([os.path.join(BIN, "replay"), "capi", bp, prog, exp, "epilogue"], timeout=3000, ok_codes=None)
         if rc != 0:
             raise ToolError("replay capi failed:\n" + out[-2000:])
         rc, out, dt = sh("%s < %s > %s 2> %s" % (drv, prog, got, err), timeout=3000, ok_codes=None,
